@@ -62,10 +62,10 @@ def compare_post(ctx, objs, defaults, post, hist_so_far):
             return False
         pr = objmodel.project(objs[i])
         for key in ("dmaxSet", "permSet"):
-            if pr[key] != po[key]:
+            if pr[key] is not None and pr[key] != po[key]:
                 note_conformance(ctx, "hidden cache flag %s differs from the specification's automaton after %s" % (key, hist_so_far[-1]["call"]))
         for key in ("seq", "sites", "pal"):
-            if pr[key] != po[key]:
+            if pr[key] is not None and pr[key] != po[key]:
                 ctx.violation("post-" + {"seq": "sequence-changed", "sites": "phosphosites", "pal": "palette", "dmaxSet": "cache-state", "permSet": "cache-state"}[key],
                               {"history": hist_so_far, "object": i}, expected=po[key], actual=pr[key])
                 return False
@@ -87,8 +87,8 @@ TABLE = {}
 def consistent(ctx, o, kind, name, real, hist):
     """The same query on the same (sequence, sites, palette) must give the same reply in every history of this run."""
     pr = objmodel.project(o)
-    key = ("".join(pr["seq"]), tuple(pr["sites"]), tuple(sorted(pr["pal"].items())), kind, name)
-    if key in TABLE and TABLE[key][0] != real:
+    key = ("".join(pr["seq"]), tuple(pr["sites"]), tuple(sorted((pr["pal"] or {}).items())), kind, name)
+    if key in TABLE and not objmodel.same_reply(TABLE[key][0], real):
         ctx.violation("reply-depends-on-history", {"history": hist, "other_history": TABLE[key][1], "seq": key[0], "query": name or kind},
                       expected=TABLE[key][0][:300], actual=real[:300])
         return False
@@ -105,7 +105,7 @@ def probe(ctx, lc, defaults, objs, hist, probes=None):
         for kind, name in (probes if probes is not None else PROBES):
             real = objmodel.one_call(o, kind, name)
             fresh = objmodel.fresh_reply(lc, defaults, o, kind, name)
-            if real != fresh:
+            if not objmodel.same_reply(real, fresh):
                 ctx.violation("reply-differs-from-fresh-object", {"history": hist, "object": i, "probe": kind}, expected=fresh[:400], actual=real[:400])
                 return False
             if not consistent(ctx, o, kind, name, real, hist):
@@ -134,7 +134,7 @@ def replay_history(ctx, lc, defaults, hist, probes=None, after_step=None):
         elif call in KINDS_Q:
             real = objmodel.one_call(objs[o], call)
             fresh = objmodel.fresh_reply(lc, defaults, objs[o], call)
-            if real != fresh:
+            if not objmodel.same_reply(real, fresh):
                 ctx.violation("reply-differs-from-fresh-object", {"history": sofar, "object": o}, expected=fresh[:400], actual=real[:400])
                 return
             if not consistent(ctx, objs[o], call, None, real, sofar):
@@ -231,6 +231,8 @@ def record_history(ctx, lc, defaults, tid, nobj, ncalls, maxlen=30):
             real = objmodel.one_call(objs[o], kind, name)
             fresh = objmodel.fresh_reply(lc, defaults, objs[o], kind, name)
             consistent(ctx, objs[o], kind, name, real, "random history %d" % tid)
+            if objmodel.same_reply(real, fresh):
+                real = fresh            # the same reply up to float rounding noise: TLC compares the digests exactly
             ev.append({"kind": kind, "obj": o, "name": name or kind, "reply": real, "fresh": fresh, "post": post()})
         elif r < 0.82:
             N = len(objs[o])
